@@ -9,10 +9,11 @@
 -/
 import SoyVerif.Lemmas.EscapeHtml
 import SoyVerif.Lemmas.EscapeDirectives
+import SoyVerif.Lemmas.EscapeBreaks
 
 namespace SoyVerif.Props.C03
 open SoyVerif SoyVerif.Model SoyVerif.Spec SoyVerif.Model.Directives
-open SoyVerif.Lemmas.EscapeHtml SoyVerif.Lemmas.EscapeDirectives
+open SoyVerif.Lemmas.EscapeHtml SoyVerif.Lemmas.EscapeDirectives SoyVerif.Lemmas.EscapeBreaks
 
 /-- `out` is a safe HTML encoding of the data `v`: none of  < > " '  occurs in it, every `&`
     in it begins a complete character reference, and it decodes back to exactly `v`. -/
@@ -46,6 +47,24 @@ theorem goHtmlEscape_safe_nul (s : Bytes) : SafeHtmlEncoding (goHtmlEscape s) (n
 
 example : goHtmlEscape [60, 0, 39] = [38, 108, 116, 59, 239, 191, 189, 38, 35, 51, 57, 59] := by decide
 example : nulToFFFD [97, 0] = [97, 239, 191, 189] := by decide
+
+/-- the HTML-producing directives that cancel autoescaping still escape every data byte they
+    pass through: with the tags they insert themselves removed, the output of escapeHtml,
+    changeNewlineToBr and insertWordBreaks is a safe encoding of the value (NUL -> U+FFFD; for
+    changeNewlineToBr without its line breaks); see C16 for "no reference is cut". -/
+theorem escaping_directives_safe (s : Bytes) (n : Int) :
+    SafeHtmlEncoding (goHtmlEscape s) (nulToFFFD s) ∧
+    SafeHtmlEncoding (removeTag brTag (changeNewlineToBr s)) (nulToFFFD (s.filter notNL)) ∧
+    SafeHtmlEncoding (removeTag wbrTag (insertWordBreaks s n)) (nulToFFFD s) := by
+  refine ⟨goHtmlEscape_safe_nul s, ?_, ?_⟩
+  · have : removeTag brTag (changeNewlineToBr s) = goHtmlEscape (s.filter notNL) := by
+      unfold removeTag changeNewlineToBr
+      rw [removeBr_nlToBr _ (fun b hb => ((noRawSpecial_iff _).1 (goHtmlEscape_noRaw s) b hb).1), filter_notNL_goHtmlEscape]
+    rw [this]; exact goHtmlEscape_safe_nul _
+  · have : removeTag wbrTag (insertWordBreaks s n) = goHtmlEscape s := by
+      unfold removeTag insertWordBreaks
+      exact removeWbr_wordBreaks n _ (fun b hb => ((noRawSpecial_iff _).1 (goHtmlEscape_noRaw s) b hb).1) 0 0 false
+    rw [this]; exact goHtmlEscape_safe_nul _
 
 /-- (3) the escape decision of evalPrint: in a mode other than Off, a print whose directives
     (obligatory ones included) all exist in the table without the cancel flag writes exactly
